@@ -83,6 +83,10 @@ register("C13", "model_checking", "E2 sched", "stateless model checking of the r
          "Every interleaving of the extraction workers at visible operations (thread start/join, archive open, every output create/write, queue operations) within preemption bound 2 (thorough 3; all interleavings for the smallest harnesses) on 2..4-folder archives, intact and with one folder damaged at each position in three ways, factory and directory sinks, and two independent sessions on one file; a line-level pass makes every py7zr source line inside workers a scheduling point. Oracle: sequential result in every schedule, no deadlock, no straggler, worker errors reach the caller.",
          "Timed waits fire only at quiescence; codec calls are atomic. The process-parallel option is not under the scheduler: it is compared with the sequential result on 12 free-running executions (its two deterministic defects are known findings).", "DESIGN.md section 5 C13")
 
+register("C18", "model_checking", "E2 sched", "stateless model checking of workers + reporter thread + caller under the controlled scheduler, callbacks as scheduling points, harness-owned clock",
+         "Every interleaving within the preemption bound (quick 1..2, thorough 2..3) of the extraction workers, the progress-reporter thread and the caller on single- and multi-folder archives, extractall and extract(targets), instantaneous and yielding callbacks, frozen and advancing clock; the recorded callback sequence is judged against the event grammar relative to the return of close().",
+         "Timed waits (reporter poll, close() join) fire only at quiescence, i.e. handlers are brief relative to 1 s. Two extraction calls in one session are executed but not judged (outside the quantifier).", "DESIGN.md section 5 C18")
+
 NOT_YET = {}
 
 
